@@ -551,4 +551,414 @@ def kw_of_method(f: ast.FunctionDef, node_name: str) -> t.Dict[str, str]:
     raise Untranslatable("Gen.Emulations.substring", f"no call building {node_name}")
 
 
-GENERATORS = {"Emulations": gen_emulations}
+# ================================================================================================
+# Gen/EmulCompose.lean — compositions sqlframe builds around engine functions in DEFAULT bodies and in the
+# string / CASE emulations: levenshtein's threshold CASE, format_string_with_pipes' splice loop, nanvl_as_case,
+# dayofweek's index base, and the copy discipline of Column.when / Column.otherwise (immutability of columns)
+# ================================================================================================
+
+CMP_CLASSES = {"LTE", "LT", "GTE", "GT", "EQ", "NEQ"}
+MUTATORS = {"extend", "append", "set", "insert", "pop", "remove", "clear", "update", "replace", "sort", "reverse", "__setitem__", "setdefault"}
+
+
+def _body(fn: ast.FunctionDef) -> t.List[ast.stmt]:
+    """statements of a function without docstring and without local imports"""
+    return [s for s in _strip_doc(fn) if not isinstance(s, (ast.Import, ast.ImportFrom))]
+
+
+def _lev_operand(node: ast.expr, ob: str) -> str:
+    src = ast.unparse(node)
+    if src == "value":
+        return "distance"
+    if src in ("lit(threshold).column_expression", "lit(threshold).expression"):
+        return "threshold"
+    raise Untranslatable(ob, f"operand {src!r} is neither the distance nor lit(threshold)")
+
+
+def _gen_levenshtein(fn: ast.Module) -> t.List[str]:
+    ob = "Gen.EmulCompose.levenshtein"
+    f = find_func(fn.body, "levenshtein")
+    params = [a.arg for a in f.args.args]
+    if params != ["left", "right", "threshold"]:
+        raise Untranslatable(ob, f"parameters are {params}")
+    body = _body(f)
+    kinds = [type(s).__name__ for s in body]
+    if kinds != ["Assign", "If", "AnnAssign", "If", "Return"]:
+        raise Untranslatable(ob, f"statement kinds {kinds}")
+    if ast.unparse(body[0]) != "session = _get_session()" or "_is_snowflake" not in ast.unparse(body[1].test) or body[1].orelse:
+        raise Untranslatable(ob, "session / snowflake branch not recognised")
+    base = body[2]
+    want = "expression.Levenshtein(this=Column.ensure_col(left).column_expression, expression=Column.ensure_col(right).column_expression)"
+    if ast.unparse(base.target) != "value" or base.value is None or ast.unparse(base.value) != want:
+        raise Untranslatable(ob, f"the distance is not {want}")
+    cond = body[3]
+    if ast.unparse(cond.test) != "threshold is not None" or cond.orelse or len(cond.body) != 1 or not isinstance(cond.body[0], ast.Assign) or ast.unparse(cond.body[0].targets[0]) != "value":
+        raise Untranslatable(ob, "`if threshold is not None: value = …` not recognised")
+    e = cond.body[0].value
+    # expression.case().when(expression.<CMP>(this=A, expression=B), THEN).else_(ELSE)
+    if not (isinstance(e, ast.Call) and isinstance(e.func, ast.Attribute) and e.func.attr == "else_" and len(e.args) == 1 and not e.keywords):
+        raise Untranslatable(ob, f"not `….else_(x)`: {ast.unparse(e)[:80]!r}")
+    w = e.func.value
+    if not (isinstance(w, ast.Call) and isinstance(w.func, ast.Attribute) and w.func.attr == "when" and len(w.args) == 2 and not w.keywords and ast.unparse(w.func.value) == "expression.case()"):
+        raise Untranslatable(ob, f"not `expression.case().when(cond, then)`: {ast.unparse(w)[:80]!r}")
+    c, then = w.args
+    if not (isinstance(c, ast.Call) and isinstance(c.func, ast.Attribute) and ast.unparse(c.func.value) == "expression" and c.func.attr in CMP_CLASSES and not c.args and sorted(k.arg or "" for k in c.keywords) == ["expression", "this"]):
+        raise Untranslatable(ob, f"condition is not expression.<LTE|LT|GTE|GT|EQ|NEQ>(this=…, expression=…): {ast.unparse(c)[:80]!r}")
+    kw = {k.arg: k.value for k in c.keywords}
+    els = e.args[0]
+    if not (isinstance(els, ast.Attribute) and els.attr in ("column_expression", "expression")):
+        raise Untranslatable(ob, f"ELSE is not lit(k).column_expression: {ast.unparse(els)!r}")
+    else_v = _lit_arg(els.value, ob)
+    if not isinstance(else_v, int) or isinstance(else_v, bool):
+        raise Untranslatable(ob, f"ELSE literal {else_v!r} is not an int")
+    if ast.unparse(body[4]) != "return Column(value)":
+        raise Untranslatable(ob, "does not `return Column(value)`")
+    return [
+        "/-- `levenshtein(left, right, threshold)` (default body, DuckDB included): with a threshold the distance is wrapped in",
+        "    `CASE WHEN <left operand> <cmp> <right operand> THEN <then> ELSE <else> END` -/",
+        f"def levThresholdCmp : String := {lean_str(c.func.attr)}",
+        f"def levThresholdLeft : String := {lean_str(_lev_operand(kw['this'], ob))}",
+        f"def levThresholdRight : String := {lean_str(_lev_operand(kw['expression'], ob))}",
+        f"def levThresholdThen : String := {lean_str(_lev_operand(then, ob))}",
+        f"def levThresholdElse : Int := {else_v}",
+        "",
+    ]
+
+
+def _dpipe_pieces(node: ast.expr, ob: str) -> t.List[str]:
+    """expression.DPipe(this=X, expression=Y) -> pieces(X) ++ pieces(Y); leaves: acc / seg / arg"""
+    src = ast.unparse(node)
+    if src == "result":
+        return ["acc"]
+    if src in ("lit(value).column_expression", "lit(values[0]).column_expression"):
+        return ["seg"]
+    if src in ("col_func(cols[i]).column_expression", "col_func(cols[0]).column_expression"):
+        return ["arg"]
+    if isinstance(node, ast.Call) and ast.unparse(node.func) == "expression.DPipe" and not node.args and sorted(k.arg or "" for k in node.keywords) == ["expression", "this"]:
+        kw = {k.arg: k.value for k in node.keywords}
+        return _dpipe_pieces(kw["this"], ob) + _dpipe_pieces(kw["expression"], ob)
+    raise Untranslatable(ob, f"not a `||` tree over result / lit(value) / col_func(cols[i]): {src[:100]!r}")
+
+
+def _gen_format_string(fa: ast.Module) -> t.List[str]:
+    ob = "Gen.EmulCompose.format_string"
+    f = find_func(fa.body, "format_string_with_pipes")
+    if [a.arg for a in f.args.args] != ["format"] or f.args.vararg is None or f.args.vararg.arg != "cols":
+        raise Untranslatable(ob, "signature is not (format, *cols)")
+    body = [s for s in _body(f) if ast.unparse(s) not in ("lit = get_func_from_session('lit')", "col_func = get_func_from_session('col')")]
+    kinds = [type(s).__name__ for s in body]
+    if kinds != ["Assign", "If", "Assign", "For", "Return"]:
+        raise Untranslatable(ob, f"statement kinds {kinds}")
+    # values = format.replace(A, B)….split(B)
+    a0 = body[0]
+    if ast.unparse(a0.targets[0]) != "values" or not (isinstance(a0.value, ast.Call) and isinstance(a0.value.func, ast.Attribute) and a0.value.func.attr == "split" and len(a0.value.args) == 1 and isinstance(a0.value.args[0], ast.Constant)):
+        raise Untranslatable(ob, f"not `values = ….split(<const>)`: {ast.unparse(a0)!r}")
+    sep = a0.value.args[0].value
+    placeholders = [sep]
+    node = a0.value.func.value
+    while not (isinstance(node, ast.Name) and node.id == "format"):
+        if not (isinstance(node, ast.Call) and isinstance(node.func, ast.Attribute) and node.func.attr == "replace" and len(node.args) == 2 and all(isinstance(x, ast.Constant) for x in node.args)):
+            raise Untranslatable(ob, f"not a chain of .replace(<const>, <const>) on `format`: {ast.unparse(node)[:80]!r}")
+        src_ph, dst_ph = node.args[0].value, node.args[1].value
+        if dst_ph not in placeholders:
+            raise Untranslatable(ob, f"replace target {dst_ph!r} is not (normalised to) the separator")
+        placeholders.append(src_ph)
+        node = node.func.value
+    letters = []
+    for ph in placeholders:
+        if not (isinstance(ph, str) and len(ph) == 2 and ph[0] == "%" and ph[1].isalpha()):
+            raise Untranslatable(ob, f"placeholder {ph!r} is not '%' + letter")
+        letters.append(ph[1])
+    # if len(values) != len(cols) + K: raise
+    i1 = body[1]
+    m = re.fullmatch(r"len\(values\) != len\(cols\) \+ (\d+)", ast.unparse(i1.test))
+    if not m or i1.orelse or len(i1.body) != 1 or not isinstance(i1.body[0], ast.Raise):
+        raise Untranslatable(ob, f"arity test not recognised: {ast.unparse(i1.test)!r}")
+    arity = int(m.group(1))
+    # result = DPipe(lit(values[0]), col_func(cols[0]))
+    a2 = body[2]
+    if ast.unparse(a2.targets[0]) != "result":
+        raise Untranslatable(ob, "initial `result = …` not found")
+    init = _dpipe_pieces(a2.value, ob)
+    if "acc" in init:
+        raise Untranslatable(ob, "initial result refers to itself")
+    loop = body[3]
+    if ast.unparse(loop.target) != "(i, value)" or ast.unparse(loop.iter) != "enumerate(values[1:], start=1)" or loop.orelse:
+        raise Untranslatable(ob, f"loop header {ast.unparse(loop.target)} in {ast.unparse(loop.iter)}")
+    if len(loop.body) != 1 or not isinstance(loop.body[0], ast.If) or ast.unparse(loop.body[0].test) != "i == len(cols)":
+        raise Untranslatable(ob, "loop body is not the single statement `if i == len(cols): … else: …`")
+    br = loop.body[0]
+
+    def branch(stmts: t.List[ast.stmt]) -> t.List[str]:
+        if len(stmts) != 1 or not isinstance(stmts[0], ast.Assign) or ast.unparse(stmts[0].targets[0]) != "result":
+            raise Untranslatable(ob, "branch is not a single `result = …`")
+        ps = _dpipe_pieces(stmts[0].value, ob)
+        if ps[:1] != ["acc"] or "acc" in ps[1:]:
+            raise Untranslatable(ob, f"branch does not extend the running result on its right: {ps}")
+        return ps[1:]
+
+    last, mid = branch(br.body), branch(br.orelse)
+    if ast.unparse(body[4]) != "return Column(result)":
+        raise Untranslatable(ob, "does not `return Column(result)`")
+
+    def pieces(ps: t.List[str]) -> str:
+        return "[" + ", ".join("FmtPiece." + p for p in ps) + "]"
+
+    return [
+        "/-- what one `||` operand is: the text segment / the argument column of the current position -/",
+        "inductive FmtPiece | seg | arg",
+        "  deriving DecidableEq, Repr",
+        "/-- `format_string_with_pipes`: the letters x for which `%x` is a placeholder (the split separator and everything",
+        "    `.replace`d into it) -/",
+        "def fmtPlaceholderLetters : List Char := [" + ", ".join(f"'{c}'" for c in sorted(set(letters))) + "]",
+        "/-- `if len(values) != len(cols) + fmtArityOffset: raise` -/",
+        f"def fmtArityOffset : Nat := {arity}",
+        "/-- the operands the first statement joins (values[0], cols[0]); the operands one loop iteration appends to the",
+        "    running result at the last position (`i == len(cols)`) and at any other position -/",
+        f"def fmtInit : List FmtPiece := {pieces(init)}",
+        f"def fmtLast : List FmtPiece := {pieces(last)}",
+        f"def fmtMid : List FmtPiece := {pieces(mid)}",
+        "",
+    ]
+
+
+def _root_of(node: ast.expr, env: t.Dict[str, str], ob: str) -> str:
+    """which object an expression denotes a PART of: 'self' (the receiver's own tree), 'copy' (a copy of it),
+    'fresh' (a newly built column)"""
+    if isinstance(node, ast.Name):
+        if node.id == "self":
+            return "self"
+        if node.id in env:
+            return env[node.id]
+        raise Untranslatable(ob, f"unknown name {node.id!r}")
+    if isinstance(node, ast.Attribute):
+        return _root_of(node.value, env, ob)
+    if isinstance(node, ast.Subscript):
+        return _root_of(node.value, env, ob)
+    if isinstance(node, ast.Call):
+        fsrc = ast.unparse(node.func)
+        if fsrc == "self.copy":
+            return "copy"
+        if isinstance(node.func, ast.Attribute) and node.func.attr in ("copy", "deepcopy"):
+            return "copy" if _root_of(node.func.value, env, ob) in ("self", "copy") else "fresh"
+        if fsrc in ("when", "lit", "Column._lit", "self._lit"):
+            return "fresh"
+        if fsrc == "Column" and len(node.args) == 1:
+            return _root_of(node.args[0], env, ob)  # a new wrapper around the SAME expression object
+        if isinstance(node.func, ast.Attribute) and node.func.attr in ("unalias", "get"):
+            return _root_of(node.func.value, env, ob)
+    if isinstance(node, ast.IfExp):
+        a, b = _root_of(node.body, env, ob), _root_of(node.orelse, env, ob)
+        if a == b:
+            return a
+        if {a, b} <= {"fresh", "arg"}:
+            return "fresh"
+    raise Untranslatable(ob, f"cannot tell which object {ast.unparse(node)[:80]!r} belongs to")
+
+
+def _copy_discipline(f: ast.FunctionDef, ob: str, params: t.List[str]) -> t.Tuple[bool, t.List[str]]:
+    """(the receiver's tree is never written and the result is not the receiver's own expression object,
+        the returns of early exits)"""
+    env: t.Dict[str, str] = {p: "arg" for p in params}
+    mutated: t.Set[str] = set()
+    returned: t.List[str] = []
+
+    def visit(stmts: t.List[ast.stmt]) -> None:
+        for st in stmts:
+            if isinstance(st, (ast.Import, ast.ImportFrom)):
+                continue
+            if isinstance(st, ast.Assign) and len(st.targets) == 1 and isinstance(st.targets[0], ast.Name):
+                try:
+                    env[st.targets[0].id] = _root_of(st.value, env, ob)
+                except Untranslatable:
+                    if any(isinstance(n, ast.Name) and n.id == "self" for n in ast.walk(st.value)):
+                        raise
+                    env[st.targets[0].id] = "fresh"
+            elif isinstance(st, ast.Assign):
+                for tg in st.targets:
+                    mutated.add(_root_of(tg, env, ob))  # attribute / subscript assignment
+            elif isinstance(st, ast.AugAssign):
+                mutated.add(_root_of(st.target, env, ob))
+            elif isinstance(st, ast.Expr) and isinstance(st.value, ast.Call) and isinstance(st.value.func, ast.Attribute):
+                if st.value.func.attr in MUTATORS:
+                    mutated.add(_root_of(st.value.func.value, env, ob))
+                else:
+                    raise Untranslatable(ob, f"statement with an unknown effect: {ast.unparse(st)[:80]!r}")
+            elif isinstance(st, ast.For):
+                if isinstance(st.target, ast.Name):
+                    env[st.target.id] = "fresh" if _root_of(st.iter, env, ob) in ("fresh", "arg") else _root_of(st.iter, env, ob)
+                visit(st.body)
+                visit(st.orelse)
+            elif isinstance(st, ast.If):
+                visit(st.body)
+                visit(st.orelse)
+            elif isinstance(st, ast.Return) and st.value is not None:
+                returned.append(_root_of(st.value, env, ob))
+            else:
+                raise Untranslatable(ob, f"statement not understood: {ast.unparse(st)[:80]!r}")
+
+    visit(_strip_doc(f))
+    if not returned:
+        raise Untranslatable(ob, "no return")
+    pure = "self" not in mutated and "arg" not in mutated and "self" not in returned
+    return pure, returned
+
+
+def _lenient_root(node: ast.expr, env: t.Dict[str, str]) -> str:
+    """like _root_of, for the survey of all methods: 'self' when the expression is, or may be, a part of the
+    receiver's own tree; anything that is built or copied is 'fresh'"""
+    if isinstance(node, ast.Name):
+        return "self" if node.id == "self" else env.get(node.id, "fresh")
+    if isinstance(node, (ast.Attribute, ast.Subscript)):
+        return _lenient_root(node.value, env)
+    if isinstance(node, ast.IfExp):
+        return "self" if "self" in (_lenient_root(node.body, env), _lenient_root(node.orelse, env)) else "fresh"
+    if isinstance(node, ast.Call) and isinstance(node.func, ast.Attribute) and node.func.attr in ("unalias", "get", "find", "this"):
+        return _lenient_root(node.func.value, env)
+    if isinstance(node, ast.Call) and ast.unparse(node.func) == "Column" and len(node.args) == 1:
+        return _lenient_root(node.args[0], env)
+    return "fresh"  # constructors, .copy(), function calls: a new object
+
+
+def _writes_receiver(f: ast.FunctionDef) -> bool:
+    env: t.Dict[str, str] = {}
+    hit = [False]
+
+    def visit(stmts: t.List[ast.stmt]) -> None:
+        for st in stmts:
+            if isinstance(st, ast.Assign) and len(st.targets) == 1 and isinstance(st.targets[0], ast.Name):
+                env[st.targets[0].id] = _lenient_root(st.value, env)
+            elif isinstance(st, (ast.Assign, ast.AugAssign)):
+                for tg in st.targets if isinstance(st, ast.Assign) else [st.target]:
+                    if isinstance(tg, (ast.Attribute, ast.Subscript)) and _lenient_root(tg, env) == "self":
+                        hit[0] = True
+            elif isinstance(st, ast.Expr) and isinstance(st.value, ast.Call) and isinstance(st.value.func, ast.Attribute) and st.value.func.attr in MUTATORS:
+                if _lenient_root(st.value.func.value, env) == "self":
+                    hit[0] = True
+            elif isinstance(st, (ast.For, ast.While)):
+                if isinstance(st, ast.For) and isinstance(st.target, ast.Name):
+                    env[st.target.id] = _lenient_root(st.iter, env)
+                visit(st.body)
+                visit(st.orelse)
+            elif isinstance(st, ast.If):
+                visit(st.body)
+                visit(st.orelse)
+            elif isinstance(st, ast.With):
+                visit(st.body)
+            elif isinstance(st, ast.Try):
+                visit(st.body)
+                for h in st.handlers:
+                    visit(h.body)
+                visit(st.orelse)
+                visit(st.finalbody)
+
+    visit(f.body)
+    return hit[0]
+
+
+def _gen_column_purity(co: ast.Module) -> t.List[str]:
+    C = find_class(co, "Column")
+    out: t.List[str] = []
+    # Column.when
+    ob = "Gen.EmulCompose.Column.when"
+    f = find_func(C.body, "when")
+    if [a.arg for a in f.args.args] != ["self", "condition", "value"]:
+        raise Untranslatable(ob, "signature is not (self, condition, value)")
+    src = ast.unparse(f)
+    if "column_with_if = when(condition, value)" not in src:
+        raise Untranslatable(ob, "the new branch is not built by functions.when(condition, value)")
+    early = [s for s in _strip_doc(f) if isinstance(s, ast.If)]
+    if len(early) != 1 or ast.unparse(early[0].test) != "not isinstance(self.column_expression, exp.Case)" or ast.unparse(early[0].body[0]) != "return column_with_if" or early[0].orelse:
+        raise Untranslatable(ob, "the non-CASE receiver branch is not `return column_with_if`")
+    pure, returned = _copy_discipline(f, ob, ["condition", "value"])
+    # the branches are appended (in order, at the end) to the `ifs` of the object that is returned
+    appends = [n for n in ast.walk(f) if isinstance(n, ast.Call) and isinstance(n.func, ast.Attribute) and n.func.attr in ("extend", "append") and "ifs" in ast.unparse(n)]
+    if len(appends) != 1:
+        raise Untranslatable(ob, "exactly one extend/append of `ifs` expected")
+    out += [
+        "/-- `Column.when`: the receiver's CASE is extended on a COPY and the copy is returned (true), or the receiver's own",
+        "    expression object is written / handed back (false) -/",
+        f"def whenCopiesReceiver : Bool := {'true' if pure and returned[-1] == 'copy' else 'false'}",
+        "/-- `Column.when` on a receiver that is not a CASE returns the freshly built `when(condition, value)` -/",
+        "def whenOnNonCaseStartsFresh : Bool := true",
+    ]
+    ob = "Gen.EmulCompose.Column.otherwise"
+    f = find_func(C.body, "otherwise")
+    if [a.arg for a in f.args.args] != ["self", "value"]:
+        raise Untranslatable(ob, "signature is not (self, value)")
+    pure, returned = _copy_discipline(f, ob, ["value"])
+    sets = [n for n in ast.walk(f) if isinstance(n, ast.Call) and isinstance(n.func, ast.Attribute) and n.func.attr == "set" and n.args and isinstance(n.args[0], ast.Constant) and n.args[0].value == "default"]
+    if len(sets) != 1:
+        raise Untranslatable(ob, "exactly one `.set('default', …)` expected")
+    out += [
+        "/-- `Column.otherwise`: ELSE is set on a COPY of the receiver and the copy is returned -/",
+        f"def otherwiseCopiesReceiver : Bool := {'true' if pure and returned[-1] == 'copy' else 'false'}",
+    ]
+    # every other method of Column: does it write into the receiver's own expression tree?
+    writers: t.List[str] = []
+    for n in C.body:
+        if not isinstance(n, ast.FunctionDef) or n.name in ("__init__", "when", "otherwise"):
+            continue
+        if any(isinstance(d, ast.Name) and d.id in ("classmethod", "staticmethod", "property") for d in n.decorator_list):
+            continue
+        if _writes_receiver(n):
+            writers.append(n.name)
+    out += [
+        "/-- methods of `Column` (other than the constructor) with a statement that writes into the receiver's own",
+        "    expression tree (attribute / item assignment or a mutator call on something reached from `self` without a copy) -/",
+        "def columnSelfWriters : List String := [" + ", ".join(lean_str(w) for w in sorted(set(writers))) + "]",
+        "",
+    ]
+    return out
+
+
+def _gen_nanvl_dayofweek(fa: ast.Module, fn: ast.Module) -> t.List[str]:
+    out: t.List[str] = []
+    ob = "Gen.EmulCompose.nanvl"
+    f = find_func(fa.body, "nanvl_as_case")
+    call = _return_call(f, ob)
+    m = re.fullmatch(r"when\((~?)isnan\((col1|col2)\), col\((col1|col2)\)\)\.otherwise\(col\((col1|col2)\)\)", ast.unparse(call))
+    if not m:
+        raise Untranslatable(ob, f"not when([~]isnan(a), col(b)).otherwise(col(c)): {ast.unparse(call)[:100]!r}")
+    out += [
+        "/-- `nanvl_as_case`: CASE WHEN [NOT] isnan(<tested>) THEN <then> ELSE <else> END -/",
+        f"def nanvlNegated : Bool := {'true' if m.group(1) else 'false'}",
+        f"def nanvlTested : String := {lean_str(m.group(2))}",
+        f"def nanvlThen : String := {lean_str(m.group(3))}",
+        f"def nanvlElse : String := {lean_str(m.group(4))}",
+    ]
+    ob = "Gen.EmulCompose.dayofweek"
+    f = find_func(fn.body, "dayofweek")
+    addend = None
+    for st in _strip_doc(f):
+        if isinstance(st, ast.If) and "_is_duckdb" in ast.unparse(st.test) and not ast.unparse(st.test).startswith("not"):
+            r = [x for x in st.body if isinstance(x, ast.Return)]
+            if len(r) == 1 and r[0].value is not None:
+                c = _coeffs(linear(r[0].value, {"result": "r"}, ob), ["r"], ob)
+                if c[0] != 1:
+                    raise Untranslatable(ob, "coefficient of the engine's day of week is not 1")
+                addend = c[1]
+    if addend is None or "expression.DayOfWeek" not in ast.unparse(f):
+        raise Untranslatable(ob, "`return result + k` under the duckdb branch / DayOfWeek node not found")
+    out += [
+        "/-- `dayofweek` on DuckDB: the engine's DAYOFWEEK (Sunday = 0) `+ dayofweekDuckAddend` -/",
+        f"def dayofweekDuckAddend : Int := {addend}",
+        "",
+    ]
+    return out
+
+
+def gen_compose(repo: str) -> str:
+    fa = parse(repo, FA)
+    fn = parse(repo, FN)
+    co = parse(repo, CO)
+    out = [HEADER.rstrip("\n"), "namespace Sqlframe.Gen.Emul", ""]
+    out += _gen_levenshtein(fn)
+    out += _gen_format_string(fa)
+    out += _gen_column_purity(co)
+    out += _gen_nanvl_dayofweek(fa, fn)
+    out.append("end Sqlframe.Gen.Emul")
+    return "\n".join(out) + "\n"
+
+
+GENERATORS = {"Emulations": gen_emulations, "EmulCompose": gen_compose}
